@@ -5,6 +5,7 @@ WsgiApplication; faults: short reads, early EOF, over-long stream, None reads,
 read errors, Content-Length lies, client aborts.  Oracle: PEP 3333 invariants
 I1..I7 over the recorded, stamped event history (DESIGN.md section 4, C13)."""
 
+import os
 import re
 
 from sim import bootstrap
@@ -65,7 +66,8 @@ MULTIPART = ['ok', 'no_cid', 'attach_first', 'bad_charset',
              'nonascii_boundary', 'no_boundary', 'no_root', 'truncated',
              'empty', 'root_only', 'root_only_charset']
 # PEP 3333: PATH_INFO and QUERY_STRING may be omitted when empty
-ENV_MODES = ['full', 'full', 'full', 'omit_qs', 'mount_point']
+# ... and a gateway that de-chunks uploads says so (wsgi.input_terminated)
+ENV_MODES = ['full', 'full', 'full', 'omit_qs', 'mount_point', 'terminated']
 
 
 def _rclasses(rng, seed):
@@ -177,6 +179,20 @@ class SimHandle(object):
     def close(self):
         self.close_calls += 1
         self.events.append((self.stamp(), 'handle_close'))
+
+    def fileno(self):
+        # like a gzip / pipe / procfs handle: there is a descriptor, but what
+        # fstat() says about it is not what read() delivers
+        global _BACKING
+        if _BACKING is None:
+            import tempfile
+            _BACKING = tempfile.TemporaryFile()
+            _BACKING.write(b'7 bytes')
+            _BACKING.flush()
+        return _BACKING.fileno()
+
+
+_BACKING = None     # a regular file, like the compressed file behind gzip.open
 
 
 class SimFile(object):
@@ -307,6 +323,9 @@ def run_case(case):
         req.env = dict(req.env or {}, SCRIPT_NAME='/app', PATH_INFO=None)
         if req.qs == '':
             req.env['QUERY_STRING'] = None
+    elif em == 'terminated':
+        req.env = dict(req.env or {})
+        req.env['wsgi.input_terminated'] = True
     cons = case['consumer']
     consumer = (cons[0], cons[1]) if cons[0] == 'abort' else (cons[0],)
     o = call_wsgi(wsgi, req, read_plan=plan, content_length=cl,
